@@ -725,7 +725,9 @@ class Builder:
             for c in nodes:
                 if len(leaves(c)) > 1:
                     return self.value(c)
-        return ''.join(str(self.value_m(c)) for c in ch)
+        # only match rules / terminals were matched: the value is the concatenated matched TEXT (a base-type token
+        # contributes what was written, not str() of its converted value)
+        return ''.join(c.text if isinstance(c, Tok) else str(self.value_m(c)) for c in ch)
 
     def tx_terminal(self, rname, depth=0):
         """does textX's parse tree hold a Terminal for a match of this match rule (body is one literal / regex /
